@@ -285,6 +285,7 @@ def run(ctx):
                 ctx.broke("correspondence:directory", "%s: after Trajectory.save the directory differs from the model in %s (refused: impl %s, model %s)" % (desc_, diff_[:4], raised_, err_))
     # ---- a save that cannot succeed (an option the format does not know, a cell the format cannot hold, per-atom data of the wrong length),
     # asked not to overwrite: whatever it raises, the file that is there stays as it is
+    fsave_jobs = []
     t_tri = md.Trajectory(t_small.xyz.copy(), t_small.topology, unitcell_lengths=[[3.0, 3.1, 3.2]] * t_small.n_frames, unitcell_angles=[[80.0, 85.0, 100.0]] * t_small.n_frames)
     for ext_ in savers:
         ext_ = ext_.lstrip(".")
@@ -303,10 +304,20 @@ def run(ctx):
                     err_ = None
                 except Exception as e:
                     err_ = type(e).__name__
+            # the directory model (FileSys.save: an input the saver rejects touches nothing; a valid one is the open-for-write step)
+            if "." + ext_ not in RESTART:   # (multi-frame restart saves write name.1 … name.n: modelled by saveMany above)
+                fsave_jobs.append((os.path.basename(pq).replace(" ", "_"), 0 if err_ else 1, "old" if os.path.exists(pq) and sha(pq) == before_ else ("new" if os.path.exists(pq) else None), err_ is not None, ext_, label_))
             if not os.path.exists(pq) or sha(pq) != before_:
                 viol("failing-save|existing-file-" + ("removed" if not os.path.exists(pq) else "changed"), "Trajectory.save('x.%s', force_overwrite=False) with %s %s; the file that existed at that path %s" % (
                     ext_, label_, "raised " + err_ if err_ else "returned", "was removed" if not os.path.exists(pq) else "was changed"), dict(ext=ext_, input=label_))
             clean(pq)
+    if ctx.driver_ok and fsave_jobs:
+        outm = ctx.driver.query(["fsave %s=old %d 0 %s=new" % (nm_, valid_, nm_) for nm_, valid_, _, _, _, _ in fsave_jobs])
+        for (nm_, valid_, state_, raised_, ext_, label_), line in zip(fsave_jobs, outm):
+            want_ = "err=%d %s" % (1 if raised_ else 0, "" if state_ is None else "%s=%s" % (nm_, state_))
+            if line is None or line.strip() != want_.strip():
+                ctx.broke("correspondence:failing-save", "save of %s onto an existing x.%s, force_overwrite=False: the directory model gives '%s', the implementation '%s'" % (label_, ext_, line, want_))
+                break
     # ---- a .dtr writer opened under a name that is converted on the way (a Path; an inline str): the directory is only created at the first
     # write, from the name the writer kept — it must be the one that was opened, and another trajectory of the directory must stay as it is.
     # In a child process, working in its own scratch directory: the unrepaired writer clears and writes whatever path it finds in freed memory.
